@@ -379,6 +379,21 @@ class JacobianAssembly:
                             break
 
             if variable not in self.sizes:
+                # No discipline has been linearized with respect to this variable
+                # because the functions do not depend on it:
+                # its size is the one of its value.
+                for discipline in self.coupling_structure.disciplines:
+                    value = discipline.io.data.get(variable)
+                    if variable in discipline.io.input_grammar and value is not None:
+                        self.sizes[variable] = (
+                            discipline.io.input_grammar.data_converter.get_value_size(
+                                variable, value
+                            )
+                        )
+                        self.disciplines[variable] = discipline
+                        break
+
+            if variable not in self.sizes:
                 msg = f"Failed to determine the size of input variable {variable}"
                 raise ValueError(msg)
 
@@ -442,7 +457,9 @@ class JacobianAssembly:
         # Iterate over outputs
         for row_index, function in enumerate(functions):
             column = 0
-            function_jacobian = self.disciplines[function].jac[function]
+            # The function is not in the Jacobian of its discipline
+            # when it does not depend on the differentiated inputs of the latter.
+            function_jacobian = self.disciplines[function].jac.get(function, {})
             # Iterate over inputs
             for column_index, variable in enumerate(variables):
                 jacobian = function_jacobian.get(variable, None)
